@@ -110,6 +110,8 @@ def valid_query(draw, need=None):
         toks.extend(c)
     if group_key is not None:
         toks.extend(["group", "by", group_key])
+        if draw(st.sampled_from(range(4))) == 0:
+            toks.extend([",", "size", "%", "2"])
     if not agg and (need == "order" or draw(st.booleans())):
         toks.extend(["order", "by"])
         nk = draw(st.sampled_from([1, 1, 2]))
@@ -118,6 +120,10 @@ def valid_query(draw, need=None):
                 toks.append(",")
             if draw(st.booleans()):
                 toks.append(str(draw(st.sampled_from(range(1, ncolumns + 1)))))
+            elif draw(st.sampled_from(range(4))) == 0:
+                # an arithmetic key (a sign after BY is an operator as anywhere else, with or without WHERE before it)
+                toks.extend(draw(st.sampled_from([["size", "*", "2"], ["size", "%", "3"], ["size", "/", "2"], ["size", "+", "1"],
+                                                  ["hardlinks", "*", "2", "+", "size"], ["length", "(", "name", ")", "%", "2"]])))
             else:
                 toks.append(draw(st.sampled_from(["name", "size", "path", "modified", "ext"])))
             d = draw(st.sampled_from(["", "", "asc", "desc"]))
